@@ -321,6 +321,7 @@ def judge(script, proj, timeout=120, audit=False):
                 res.kind = "prop" if (proj.get("nopanic") or s != "~none") else "corr"
                 res.op_index, res.op, res.code, res.model, res.spec = i, op, c, m, s
                 res.why = f"the call ended in {c}"
+                res.model_agrees = (c == m)
                 return res
             return res
         if proj["ops"] is not None and cmd not in proj["ops"]:
